@@ -34,6 +34,7 @@ Apis(dn) == SelectSeq(dn, LAMBDA d : d[1] = "api")
 Match(y, e) ==
   /\ y.ptr = e.pi
   /\ y.st = e.sts
+  /\ y.sa = e.sa                     \* ... and with the right reason each time
   /\ y.nstop = e.ns                  \* the application's stop callback: once per ended session, never otherwise
   /\ SameOps(Mgmt(y.dn), Mgmt(e.dn))
   \* a refused API call raised a connection error in this very callback and wrote nothing
@@ -46,7 +47,7 @@ Match(y, e) ==
   /\ (y.gate = "failed") => (Len(Apis(e.dn)) = 1 /\ Apis(e.dn)[1][3])
 
 Diff(y, e) ==
-  (IF y.ptr # e.pi THEN {"pi"} ELSE {}) \cup (IF y.st # e.sts THEN {"sts"} ELSE {}) \cup (IF y.nstop # e.ns THEN {"ns"} ELSE {}) \cup
+  (IF y.ptr # e.pi THEN {"pi"} ELSE {}) \cup (IF y.st # e.sts THEN {"sts"} ELSE {}) \cup (IF y.nstop # e.ns THEN {"ns"} ELSE {}) \cup (IF y.sa # e.sa THEN {"sa"} ELSE {}) \cup
   (IF ~SameOps(Mgmt(y.dn), Mgmt(e.dn)) THEN {"dn"} ELSE {}) \cup
   (IF y.gate = "shut" /\ ~(e.wn = 0 /\ Len(Apis(e.dn)) = 1 /\ Apis(e.dn)[1][3]) THEN {"gate"} ELSE {}) \cup
   (IF y.gate = "shut_in_stop" /\ ~(Len(Apis(e.dn)) = Len(Apis(y.dn)) /\ (\A k \in 1..Len(Apis(e.dn)) : Apis(e.dn)[k][3])
@@ -56,7 +57,7 @@ Diff(y, e) ==
 
 Internal(x) ==
   UNION {PhaseEnd(x, j, "ok") \cup PhaseEnd(x, j, "err") \cup PhaseEnd(x, j, "badname") : j \in 1..Len(x.phs)} \cup Progress(x) \cup Noop(x)
-  \cup UNION {EnvClose(x, i) : i \in 1..N(x)} \cup UNION {DiscEnd(x, i) : i \in 1..N(x)}
+  \cup UNION {EnvClose(x, i) : i \in 1..N(x)} \cup UNION {DiscEnd(x, i) : i \in 1..N(x)} \cup UNION {DiscProceed(x, i) : i \in 1..N(x)}
 
 Apply(x, e) ==
   CASE e.c = "UserStart"      -> UserStart(x)
@@ -69,6 +70,7 @@ Apply(x, e) ==
     [] e.c = "UserExpect"     -> UserExpect(x, e.a.n)
     \* (the chunk that carries it may carry more: whatever else a device chunk can cause is allowed in the same callback)
     [] e.c = "EnvHello"       -> LET Y == EnvHello(x, e.a.i, e.a.n) IN Y \cup UNION {Internal(y) : y \in Y}
+    [] e.c = "EnvDiscReq"     -> EnvDiscReq(x, e.a.i)
     [] e.c = "EnvWriteFail"   -> EnvWriteFail(x, e.a.i)
     [] e.c = "EnvReset"       -> EnvReset(x, e.a.i)
     [] e.c = "EnvLoss"        -> IF e.a.i = 0 \/ x.st[e.a.i] = "closed" THEN Internal(x) ELSE EnvClose(x, e.a.i)
